@@ -109,7 +109,10 @@ class Reverter(object):
             )
 
         if self.obj.operation_type == Operation.DELETE:
-            self.session.delete(self.version_parent)
+            # Reverting to a delete version means the entity must not
+            # exist; it may already be gone.
+            if self.version_parent is not None:
+                self.session.delete(self.version_parent)
             return
 
         self.visited_objects.append(self.obj)
